@@ -5,7 +5,7 @@
    with the Gallina model, for which "never Panic, never out of fuel" is
    proved in Properties/C16.v. *)
 From Coq Require Import List NArith ZArith Bool.
-From Dials Require Import Base.Outcome Base.Runes Text.CaseConv Text.Quote Text.Split Text.CasePipeline Text.CaseTitle.
+From Dials Require Import Base.Outcome Base.Runes Text.CaseConv Text.Quote Text.Split Text.CasePipeline Text.CaseTitle Text.Utf8.
 From Dials Require Export Text.ParseInt Text.ParseString.
 From Dials Require Import Check.C15Check.
 Import ListNotations.
@@ -16,6 +16,11 @@ Inductive c16case :=
 | Str (pr : list rune) (t : ty) (s : str) (impl : outcome pval)      (* parse.String(s, t) *)
 | IntSl (signed : bool) (w : N) (s : str) (impl : outcome (list Z))  (* integral slice parsers *)
 | Unq (s : str) (impl : outcome str)                                 (* strconv.Unquote on double/back-quoted text *)
+(* the same entry points on arbitrary BYTE strings, through the UTF-8 front end (Text/Utf8.v) *)
+| DecB (d : N) (bs : list N) (impl : outcome words)
+| StrB (pr : list rune) (t : ty) (bs : list N) (impl : outcome pval)
+| IntSlB (signed : bool) (w : N) (bs : list N) (impl : outcome (list Z))
+| UnqB (bs : list N) (impl : outcome str)
 | Enc (e : N) (ws : words) (impl : outcome str)                      (* the 6 encoders on arbitrary ASCII word lists *)
 | Pipe (d1 e d2 : N) (s : str) (impl : outcome words)                (* decode, encode, decode; ASCII input *)
 | Fuzz (impl_class : N).                                             (* byte-level exploration: 0 returned, 1 panicked/hung *)
@@ -29,7 +34,7 @@ Definition decode (d : N) : str -> outcome words :=
 
 (* 0 pass; 1 implementation <> model although it returned; 3 the implementation
    panicked or hung *)
-Definition check (c : c16case) : N :=
+Definition check0 (c : c16case) : N :=
   match c with
   | Dec d s impl =>
       if is_panic impl then 3 else if out_eqb strs_eqb impl (decode d s) then 0 else 1
@@ -39,7 +44,7 @@ Definition check (c : c16case) : N :=
         let model := parse_string (mk_print pr) fixed9 fixed_elem t s in
         match model with
         | Ok v => if pval_raw v then (if out_class_eqb impl model then 0 else 1)
-                  else if out_eqb pval_eqb impl model then 0 else 1
+                  else if out_eqb pval_eqb impl (Ok (pval_norm v)) then 0 else 1
         | _ => if out_eqb pval_eqb impl model then 0 else 1
         end
   | IntSl signed w s impl =>
@@ -51,12 +56,18 @@ Definition check (c : c16case) : N :=
   | Unq s impl =>
       if is_panic impl then 3
       else
-        let model := unquote s in
-        match model with
-        | Ok v => if has_raw v then (if out_class_eqb impl model then 0 else 1)
-                  else if out_eqb str_eqb impl model then 0 else 1
-        | _ => if out_eqb str_eqb impl model then 0 else 1
-        end
+        if out_eqb str_eqb impl (omap renorm (unquote s)) then 0 else 1
+  | DecB d bs impl =>
+      let s := utf8_decode bs in
+      if is_panic impl then 3
+      (* the decoder model classifies ASCII only: valid non-ASCII runes are not compared *)
+      else if existsb (fun r => (128 <=? r) && negb (is_raw r)) s then 0
+      (* DecodeGoTags does not validate its input; its test word == strings.ToUpper(word) is a byte
+         comparison and ToUpper re-encodes an invalid byte as U+FFFD (3 bytes), which the rune-level
+         all_upper of Text/CaseConv.v cannot see: invalid bytes through decoder 7 are exploration only *)
+      else if (7 <=? d) && has_invalid s then 0
+      else if out_eqb strs_eqb impl (decode d (range_view s)) then 0 else 1
+  | StrB _ _ _ _ | IntSlB _ _ _ _ | UnqB _ _ => 0      (* reduced to the rune-level cases by check *)
   | Enc e ws impl =>
       if is_panic impl then 3
       else if out_eqb str_eqb impl (Ok (encode_by_go e ws)) then 0 else 1
@@ -64,6 +75,14 @@ Definition check (c : c16case) : N :=
       if is_panic impl then 3
       else if out_eqb strs_eqb impl (ws <- decode_by d1 s ;; decode_by d2 (encode_by_go e ws)) then 0 else 1
   | Fuzz k => if k =? 0 then 0 else 3
+  end.
+
+Definition check (c : c16case) : N :=
+  match c with
+  | StrB pr t bs impl => check0 (Str pr t (utf8_decode bs) impl)
+  | IntSlB signed w bs impl => check0 (IntSl signed w (utf8_decode bs) impl)
+  | UnqB bs impl => check0 (Unq (utf8_decode bs) impl)
+  | _ => check0 c
   end.
 
 Fixpoint run_from (i : N) (cs : list c16case) : list (N * N) :=
